@@ -14,6 +14,7 @@ SPEC = {
         H("c03::c03_child_of", desc="child_of_with / new_root_with: creation goes to the given collector, parent and child handles close once each in either order", sym="drop order"),
         H("c03::c03_current_capture", desc="Span::current(), none().or_current(), clone().or_current() each add exactly one clone on the collector that owns the current span; none after exit"),
         H("c03::c03_instrumented", desc="Instrumented<Leaf>: ready after n<=2 polls, polled k<=n+1 times then dropped: one enter/exit per poll, body dropped inside the span, one close", sym="n, k"),
+        H("c03::c03_instrumented_into_inner", desc="Instrumented::into_inner after k<=2 polls, on a solver-chosen thread: the wrapper's span handle is released (one close), no extra enter/exit", sym="k, thread"),
         H("c03::c03_reach", kind="reach", desc="vacuity twin"),
     ],
     "functions": ["tracing::Span::{new_with, new_root_with, child_of_with, new_disabled, none, current, or_current, clone, enter, entered, in_scope, record, follows_from, id, drop}",
